@@ -2,8 +2,10 @@ package main
 
 import (
 	"bytes"
+	"io"
 	"os"
 	"path/filepath"
+	"testing/iotest"
 
 	"github.com/virus-evolution/gofasta/pkg/fastaio"
 	"github.com/virus-evolution/gofasta/pkg/sam"
@@ -12,7 +14,16 @@ import (
 func init() {
 	ops["toma"] = func(c Case) ([]byte, map[string]interface{}, error) {
 		var out bytes.Buffer
-		err := sam.ToMultiAlign(bytes.NewReader(b64(c, "sam")), &out, integer(c, "wrap", 0), integer(c, "start", -1),
+		var in io.Reader = bytes.NewReader(b64(c, "sam"))
+		switch str(c, "reader") {
+		case "dataerr": // the last bytes arrive together with io.EOF, as compress/gzip and network readers deliver them
+			in = iotest.DataErrReader(in)
+		case "onebyte":
+			in = iotest.OneByteReader(in)
+		case "half":
+			in = iotest.HalfReader(in)
+		}
+		err := sam.ToMultiAlign(in, &out, integer(c, "wrap", 0), integer(c, "start", -1),
 			integer(c, "end", -1), boolean(c, "pad"), integer(c, "threads", 1))
 		return out.Bytes(), nil, err
 	}
